@@ -42,6 +42,23 @@ def _finding_for(prop, unit, fn, err_text):
     return None
 
 
+def _cached_verus(src, text, **kw):
+    """Verus is deterministic for a given input text and flags: results for an identical generated file are
+    reused (the file itself is always regenerated from /repo's working tree first)."""
+    key = hashlib.sha256((text + json.dumps(kw, sort_keys=True)).encode()).hexdigest()
+    cdir = os.path.join(BUILD, "cache")
+    os.makedirs(cdir, exist_ok=True)
+    cp = os.path.join(cdir, key + ".json")
+    if os.path.exists(cp) and not os.environ.get("VERIF_NO_CACHE"):
+        c = json.load(open(cp))
+        class P:  # minimal stand-in for the CompletedProcess
+            stderr = c["stderr"]
+        return c["js"], c["diags"], c["wall"], c["cmd"] + "   (result reused: identical generated file)", P
+    js, diags, wall, cmd, proc = vr.run_verus(src, **kw)
+    json.dump({"js": js, "diags": diags, "wall": wall, "cmd": cmd, "stderr": (proc.stderr or "")[-4000:]}, open(cp, "w"))
+    return js, diags, wall, cmd, proc
+
+
 def run_unit(unit, repo, tier, vacuity=True):
     os.makedirs(BUILD, exist_ok=True)
     text, linemap, log, extracted = vr.build_unit(unit, repo, ROOT)
@@ -54,7 +71,7 @@ def run_unit(unit, repo, tier, vacuity=True):
         extra = [t for t in trusted if t not in allowed["allowed"]]
         if extra:
             raise Undecided("unit %s: trusted constructs not on the whitelist: %s" % (unit, extra))
-    js, diags, wall, cmd, proc = vr.run_verus(src, rlimit=60 if tier == "thorough" else 40)
+    js, diags, wall, cmd, proc = _cached_verus(src, text, rlimit=60 if tier == "thorough" else 40)
     funcs, errors, hard, vres = vr.analyse(js, diags, linemap, unit)
     undecided_fns = {}
     if hard and all(h.get("rlimit") for h in hard):
@@ -104,7 +121,7 @@ def run_unit(unit, repo, tier, vacuity=True):
                 probes.append({"id": len(probes), "fn": m2.group(1), "where": m2.group(2), "line": ln + 1})
         vsrc = os.path.join(BUILD, unit + "_vacuity.rs")
         open(vsrc, "w").write(vtext)
-        js2, diags2, wall2, cmd2, proc2 = vr.run_verus(vsrc, rlimit=40, multiple_errors=200)
+        js2, diags2, wall2, cmd2, proc2 = _cached_verus(vsrc, vtext, rlimit=40, multiple_errors=200)
         _, _, hard2, vres2 = vr.analyse(js2, diags2, [], unit + "_vacuity")
         if hard2 or not vres2:
             raise Undecided("unit %s: vacuity run failed: %s" % (unit, (hard2[0]["message"] if hard2 else (proc2.stderr or "")[-400:])))
